@@ -1,10 +1,10 @@
 #!/bin/bash
-# usage: lib/confirm_seed.sh <agent-worktree> <seed-name> <property> <demo-target-relpath> [go test tags]
+# usage: lib/confirm_seed.sh <agent-worktree> <seed-name> <property> <demo-target-relpath> [go test tags] [-run pattern]
 # Confirms an independently written property-breaking change in a fresh scratch worktree:
 # build, existing tests (all packages except the slow vendored TLS stack), demonstration fails with the
 # change and passes without it. On success stores it under /verif/seeded/<seed-name>/.
 set -u
-SRC=$1; NAME=$2; PROP=$3; DEMO_TARGET=$4; TAGS=${5:-}
+SRC=$1; NAME=$2; PROP=$3; DEMO_TARGET=$4; TAGS=${5:-}; RUN=${6:-}
 export GOFLAGS=-mod=mod GOPROXY=off GOSUMDB=off
 WT=/tmp/vf-confirm-$NAME
 git -C /repo worktree remove --force $WT >/dev/null 2>&1; rm -rf $WT
@@ -15,6 +15,7 @@ cd $WT
 DEMO=$SRC/SEED/demo_test.go
 PKG=./$(dirname $DEMO_TARGET)
 tagarg=(); [ -n "$TAGS" ] && tagarg=(-tags "$TAGS")
+[ -n "$RUN" ] && tagarg+=(-run "$RUN")
 # 1. demonstration WITHOUT the change
 cp $DEMO $WT/$DEMO_TARGET
 go test -vet=off -count=1 "${tagarg[@]}" $PKG > /tmp/confirm-$NAME-without.log 2>&1; RC_WITHOUT=$?
